@@ -181,6 +181,11 @@ func Ls(n *com.Packet) ([]os.FileInfo, error) {
 	if err != nil || c == 0 {
 		return nil, err
 	}
+	if int(c) > n.Remaining() {
+		// NOTE: Every entry takes at least one byte, a count larger than the
+		//       data left cannot be valid and must not size an allocation.
+		return nil, io.ErrUnexpectedEOF
+	}
 	e := make([]os.FileInfo, c)
 	for i := range e {
 		var v fileInfo
@@ -234,6 +239,11 @@ func WindowList(n *com.Packet) ([]Window, error) {
 	c, err := n.Uint32()
 	if err != nil {
 		return nil, err
+	}
+	if int(c) > n.Remaining() {
+		// NOTE: Every entry takes at least one byte, a count larger than the
+		//       data left cannot be valid and must not size an allocation.
+		return nil, io.ErrUnexpectedEOF
 	}
 	e := make([]Window, c)
 	for i := range e {
@@ -403,6 +413,11 @@ func FuncRemapList(n *com.Packet) ([]FuncEntry, error) {
 	if err != nil {
 		return nil, err
 	}
+	if int(c) > n.Remaining() {
+		// NOTE: Every entry takes at least one byte, a count larger than the
+		//       data left cannot be valid and must not size an allocation.
+		return nil, io.ErrUnexpectedEOF
+	}
 	e := make([]FuncEntry, c)
 	for i := range e {
 		if err = e[i].UnmarshalStream(n); err != nil {
@@ -481,6 +496,11 @@ func ProcessList(n *com.Packet) ([]cmd.ProcessInfo, error) {
 	if err != nil {
 		return nil, err
 	}
+	if int(c) > n.Remaining() {
+		// NOTE: Every entry takes at least one byte, a count larger than the
+		//       data left cannot be valid and must not size an allocation.
+		return nil, io.ErrUnexpectedEOF
+	}
 	e := make([]cmd.ProcessInfo, c)
 	for i := range e {
 		if err = e[i].UnmarshalStream(n); err != nil {
@@ -557,6 +577,11 @@ func Registry(n *com.Packet) ([]regedit.Entry, bool, error) {
 		}
 	} else {
 		c = 1
+	}
+	if int(c) > n.Remaining() {
+		// NOTE: Every entry takes at least one byte, a count larger than the
+		//       data left cannot be valid and must not size an allocation.
+		return nil, false, io.ErrUnexpectedEOF
 	}
 	r := make([]regedit.Entry, c)
 	for i := range r {
